@@ -94,6 +94,9 @@ let check inp obs =
             let rr = (match parse_res res with Some x -> x | None -> RPanic) in
             let rr = (match rr with RList l -> RList (sort_pairs l) | x -> x) in
             { o_call = c; o_ret = r; o_op = parse_op op; o_res = rr }) recs in
+        (* the verdict does not depend on the order of the list; the search tries candidates in list
+           order, and the order of the return stamps is close to the order of the lock acquisitions *)
+        let h = List.stable_sort (fun a b -> compare (int_of_n a.o_ret) (int_of_n b.o_ret)) h in
         match pq_lin (n_of_int 2000000) h with
         | Some true -> (true, "")
         | r ->
